@@ -29,12 +29,17 @@ Conventions: addresses and scope ids are symbolic strings.  The scope token of s
 (`MetadataAddress.Denom() = "nft/" + bech32`, x/metadata/types/address.go:863) is the denom
 `i` of the shared `Ledger`; the Go harness maps names to real addresses/denoms.  The empty
 string is "no address" exactly as in the Go code (`len(addr) == 0`).
+Scopes may have `require_party_rollup` set and then may list optional parties
+(`validateAllRequiredPartiesSigned`, signers.go:64-99, with `BuildPartyDetails`,
+`associateSigners`, `associateAuthorizations`, `associateRequiredRoles`,
+`associateAuthorizationsForRoles`); an optional party may well be the value owner.
 Outside the model (assumed off in the harness app): quarantine opt-ins and sanctions (both
 would be further send restrictions; a transfer to a quarantined receiver parks the token with
 the quarantine module's funds holder until the receiver accepts), fee grants in use, expiring
-authz grants, scopes with `require_party_rollup`, scope specifications other than the one the
-harness creates (parties involved = [OWNER], so `validateRolesPresent` always passes and
-`validateProvenanceRole` reduces to "no owner is a smart contract"), NAV entries (`usd_mills`),
+authz grants, scope specifications other than the one the
+harness creates (parties involved = [OWNER] and every party has role OWNER, so
+`validateRolesPresent` always passes, the one required role is fulfilled by any party with a
+signer, and `validateProvenanceRole` reduces to "no owner is a smart contract"), NAV entries (`usd_mills`),
 records and sessions of a deleted scope, malformed bech32 strings (names are symbolic).
 Core-only.
 -/
@@ -72,6 +77,7 @@ inductive Err where
   | state      -- "denom has more than one owner"
   | provrole   -- smart-contract owner without the PROVENANCE role
   | sig        -- "missing signature…"
+  | roles      -- "missing signers for roles required by spec"
   | contract   -- validateSmartContractSigners
   | blocked    -- "is not allowed to receive funds"
   | withdraw   -- marker send restriction: no signer with withdraw on the sending marker
@@ -85,7 +91,7 @@ inductive Err where
 
 def Err.toString : Err → String
   | .invalid => "err:invalid" | .state => "err:state" | .provrole => "err:provrole"
-  | .sig => "err:sig" | .contract => "err:contract" | .blocked => "err:blocked"
+  | .sig => "err:sig" | .roles => "err:roles" | .contract => "err:contract" | .blocked => "err:blocked"
   | .withdraw => "err:withdraw" | .deposit => "err:deposit" | .funds => "err:funds"
   | .notfound => "err:notfound" | .dup => "err:dup" | .novo => "err:novo" | .same => "err:same"
 
@@ -104,9 +110,22 @@ structure Marker where
   access : List (Addr × Access)
   deriving DecidableEq, Repr
 
+/-- a `Party` of role OWNER (types/scope.pb.go): address and the `optional` flag -/
+structure Party where
+  addr : Addr
+  optional : Bool := false
+  deriving DecidableEq, Repr
+
+/-- a required (optional = false) party -/
+def req (a : Addr) : Party := ⟨a, false⟩
+/-- an optional party -/
+def opt (a : Addr) : Party := ⟨a, true⟩
+
 structure Scope where
   id : ScopeId
-  owners : List Addr
+  owners : List Party
+  /-- `require_party_rollup` -/
+  rollup : Bool := false
   deriving DecidableEq, Repr
 
 /-- the metadata module account (mints, burns; a blocked address in the app) -/
@@ -129,14 +148,18 @@ def findScope (s : State) (id : ScopeId) : Option Scope := s.scopes.find? (·.id
 def hasScope (s : State) (id : ScopeId) : Bool := s.scopes.any (·.id = id)
 
 /-- `writeScopeToState` (scope.go:144): insert or replace -/
-def putScope (s : State) (id : ScopeId) (owners : List Addr) : State :=
-  { s with scopes := ⟨id, owners⟩ :: s.scopes.filter (·.id ≠ id) }
+def putScope (s : State) (id : ScopeId) (owners : List Party) (rollup : Bool) : State :=
+  { s with scopes := ⟨id, owners, rollup⟩ :: s.scopes.filter (·.id ≠ id) }
 
 def dropScope (s : State) (id : ScopeId) : State :=
   { s with scopes := s.scopes.filter (·.id ≠ id) }
 
-/-- `EqualParties` (types/scope.go:518) for parties that all have role OWNER -/
-def sameOwners (a b : List Addr) : Bool := a.length == b.length && a.all (b.contains ·)
+/-- `EqualParties` (types/scope.go:518) for parties that all have role OWNER: `Party.Equals`
+compares address, role and the optional flag -/
+def sameOwners (a b : List Party) : Bool := a.length == b.length && a.all (b.contains ·)
+
+/-- `Scope.GetAllOwnerAddresses` / `GetPartyAddresses` (types/scope.go:541) -/
+def partyAddrs (ps : List Party) : List Addr := ps.map (·.addr)
 
 def nodupB (xs : List String) : Bool :=
   match xs with
@@ -214,12 +237,13 @@ def setScopeValueOwner (s : State) (agents : List Addr) (id : ScopeId) (newVO : 
         | .ok s2 => if newVO = "" then burnCoin s2 id else .ok s2
 
 /-- `Keeper.SetScope` (scope.go:126) -/
-def setScope (s : State) (agents : List Addr) (id : ScopeId) (owners : List Addr) (vo : Addr) : Except Err State :=
+def setScope (s : State) (agents : List Addr) (id : ScopeId) (owners : List Party) (rollup : Bool) (vo : Addr) :
+    Except Err State :=
   if vo ≠ "" then
     match setScopeValueOwner s agents id vo with
     | .error e => .error e
-    | .ok s1 => .ok (putScope s1 id owners)
-  else .ok (putScope s id owners)
+    | .ok s1 => .ok (putScope s1 id owners rollup)
+  else .ok (putScope s id owners rollup)
 
 /-- `Keeper.RemoveScope` (scope.go:169) -/
 def removeScope (s : State) (agents : List Addr) (id : ScopeId) : Except Err State :=
@@ -333,6 +357,73 @@ def validateAllRequiredSigned (a : Auth) (signers : List Addr) (mt : MsgType) :
       | (a1, some g) => validateAllRequiredSigned a1 signers mt rest (g :: used)
       | (_, none) => .error .sig
 
+/-! ### `require_party_rollup` scopes (signers.go:64-99) -/
+
+/-- `types.PartyDetails` for a party of role OWNER: `signer = ""` means no signer yet -/
+structure PartyDetails where
+  addr : Addr
+  optional : Bool
+  signer : Addr := ""
+  deriving DecidableEq, Repr
+
+/-- `BuildPartyDetails(parties, parties)` followed by `associateSigners` (signers.go:102): one
+entry per party (the parties of a stored scope are unique: `ValidatePartiesAreUnique`), a party
+whose address is among the msg signers is its own signer -/
+def associateSigners (signers : List Addr) (ps : List Party) : List PartyDetails :=
+  ps.map fun p => ⟨p.addr, p.optional, if signers.contains p.addr then p.addr else ""⟩
+
+/-- `associateAuthorizations(findUnsignedRequired(parties))` + the "missing required
+signature" check (signers.go:74-83): every required party without a signer must have granted one
+of the msg signers.  (The Go loop visits all of them before failing; a failure discards every
+write, so stopping at the first is the same.) -/
+def associateRequired (signers : List Addr) (mt : MsgType) :
+    Auth → List PartyDetails → Except Err (Auth × List PartyDetails)
+  | a, [] => .ok (a, [])
+  | a, p :: rest =>
+    if p.optional || p.signer ≠ "" then
+      match associateRequired signers mt a rest with
+      | .error e => .error e
+      | .ok (a1, r) => .ok (a1, p :: r)
+    else match findAuthzGrantee a p.addr signers mt with
+      | (a1, some g) =>
+        match associateRequired signers mt a1 rest with
+        | .error e => .error e
+        | .ok (a2, r) => .ok (a2, { p with signer := g } :: r)
+      | (_, none) => .error .sig
+
+/-- `associateAuthorizationsForRoles` for the one missing role OWNER (signers.go:300): the
+first party without a signer that has granted a msg signer fulfils it -/
+def associateRole (signers : List Addr) (mt : MsgType) :
+    Auth → List PartyDetails → Except Err (Auth × List PartyDetails)
+  | _, [] => .error .roles
+  | a, p :: rest =>
+    if p.signer ≠ "" then
+      match associateRole signers mt a rest with
+      | .error e => .error e
+      | .ok (a1, r) => .ok (a1, p :: r)
+    else match findAuthzGrantee a p.addr signers mt with
+      | (a1, some g) => .ok (a1, { p with signer := g } :: rest)
+      | (a1, none) =>
+        match associateRole signers mt a1 rest with
+        | .error e => .error e
+        | .ok (a2, r) => .ok (a2, p :: r)
+
+/-- `Keeper.validateAllRequiredPartiesSigned(parties, parties, [OWNER])` (signers.go:64):
+all required parties sign (or have granted a signer); the role OWNER is fulfilled by a party
+with a signer (`associateRequiredRoles`, signers.go:132) or else by an authz grant of a party
+that has none yet.  Returns `GetUsedSigners` of the party details: OPTIONAL PARTIES THAT DID NOT
+SIGN ARE PART OF THE RETURNED DETAILS BUT HAVE NO SIGNER — being a party proves nothing. -/
+def validateAllRequiredPartiesSigned (a : Auth) (signers : List Addr) (mt : MsgType) (parties : List Party) :
+    Except Err (Auth × List Addr) :=
+  match associateRequired signers mt a (associateSigners signers parties) with
+  | .error e => .error e
+  | .ok (a1, ds) =>
+    let usedOf (ds : List PartyDetails) : List Addr := (ds.filter (·.signer ≠ "")).map (·.signer)
+    if ds.any (·.signer ≠ "") then .ok (a1, usedOf ds)
+    else match associateRole signers mt a1 ds with
+      | .error e => .error e
+      | .ok (a2, ds2) => .ok (a2, usedOf ds2)
+
 /-- the signers `ValidateScopeValueOwnersSigners` looks at (signers.go:444-467): only the
 first one when it is a smart contract -/
 def effectiveSigners (s : State) : List Addr → List Addr
@@ -392,34 +483,42 @@ owner is proposed -/
 def writeExistingVO (s : State) (id : ScopeId) (existing : Option Scope) (vo : Addr) : Except Err (Option Addr) :=
   if existing.isSome ∧ vo ≠ "" then denomOwner s.ledger id else .ok none
 
-/-- scope.go:455-509: which of the scope's owners have to sign a write -/
-def writeParties (s : State) (existing : Option Scope) (owners signers : List Addr) (existingVOStr vo : Addr) :
-    Except Err (Auth × List Addr) :=
+/-- scope.go:455-522: which of the scope's owners have to sign a write -/
+def writeParties (s : State) (existing : Option Scope) (owners : List Party) (rollup : Bool) (signers : List Addr)
+    (existingVOStr vo : Addr) : Except Err (Auth × List Addr) :=
+  -- `EqualParties` and `RequirePartyRollup ==` of `Scope.Equals` (types/scope.go:38)
   let ownersSame := match existing with
-    | some e => sameOwners e.owners owners
+    | some e => sameOwners e.owners owners && e.rollup == rollup
     | none => false
-  -- scope.go:460
+  -- scope.go:465
   let onlyChangeIsValueOwner := existing.isSome && existingVOStr ≠ "" && existingVOStr ≠ vo && ownersSame
   let a0 : Auth := { grants := s.grants }
   if onlyChangeIsValueOwner then .ok (a0, [])
-  else if owners.any (s.wasm.contains ·) then .error .provrole   -- validateProvenanceRole (role OWNER)
+  else if owners.any (s.wasm.contains ·.addr) then .error .provrole   -- validateProvenanceRole (role OWNER)
   else match existing with
     | some e =>
-      -- scope.go:490: !existing.Equals(proposed)
-      if !(ownersSame && existingVOStr = vo) then validateAllRequiredSigned a0 signers .write e.owners []
-      else .ok (a0, [])
+      if !e.rollup then
+        -- scope.go:494: !existing.Equals(proposed)
+        if !(ownersSame && existingVOStr = vo) then validateAllRequiredSigned a0 signers .write (partyAddrs e.owners) []
+        else .ok (a0, [])
+      else
+        -- scope.go:516: the roll-up branch checks the parties of the existing scope on every write
+        validateAllRequiredPartiesSigned a0 signers .write e.owners
     | none => .ok (a0, [])
 
 /-- `MsgWriteScopeRequest.ValidateBasic` + `Keeper.ValidateWriteScope` (scope.go:424).
 Returns the auth state and the transfer agents. -/
-def validateWriteScope (s : State) (id : ScopeId) (owners : List Addr) (vo : Addr) (signers : List Addr) :
-    Except Err (Auth × List Addr) :=
-  if signers.isEmpty || owners.isEmpty || !nodupB owners then .error .invalid
+def validateWriteScope (s : State) (id : ScopeId) (owners : List Party) (rollup : Bool) (vo : Addr)
+    (signers : List Addr) : Except Err (Auth × List Addr) :=
+  -- `ValidatePartiesBasic` (at least one, unique address+role) and `ValidateOptionalParties`
+  -- (types/scope.go:446-468): optional parties only with require_party_rollup
+  if signers.isEmpty || owners.isEmpty || !nodupB (partyAddrs owners) || (!rollup && owners.any (·.optional))
+  then .error .invalid
   else
     match writeExistingVO s id (findScope s id) vo with
     | .error e => .error e
     | .ok existingVO =>
-      match writeParties s (findScope s id) owners signers (existingVO.getD "") vo with
+      match writeParties s (findScope s id) owners rollup signers (existingVO.getD "") vo with
       | .error e => .error e
       | .ok (a1, used1) =>
         match validateScopeValueOwnersSigners s a1 existingVO.toList vo signers .write with
@@ -430,10 +529,17 @@ def validateWriteScope (s : State) (id : ScopeId) (owners : List Addr) (vo : Add
           | .ok a3 => .ok (a3, agents)
 
 /-- `msgServer.WriteScope` (msg_server.go:31) -/
-def writeScope (s : State) (id : ScopeId) (owners : List Addr) (vo : Addr) (signers : List Addr) : Except Err State :=
-  match validateWriteScope s id owners vo signers with
+def writeScope (s : State) (id : ScopeId) (owners : List Party) (rollup : Bool) (vo : Addr) (signers : List Addr) :
+    Except Err State :=
+  match validateWriteScope s id owners rollup vo signers with
   | .error e => .error e
-  | .ok (a, agents) => setScope { s with grants := a.grants } agents id owners vo
+  | .ok (a, agents) => setScope { s with grants := a.grants } agents id owners rollup vo
+
+/-- scope.go:553-580: the parties that must agree to a delete (the harness's scope
+specification always exists) -/
+def deleteParties (s : State) (e : Scope) (signers : List Addr) : Except Err (Auth × List Addr) :=
+  if !e.rollup then validateAllRequiredSigned { grants := s.grants } signers .delete (partyAddrs e.owners) []
+  else validateAllRequiredPartiesSigned { grants := s.grants } signers .delete e.owners
 
 /-- `Keeper.ValidateDeleteScope` (scope.go:525) -/
 def validateDeleteScope (s : State) (id : ScopeId) (signers : List Addr) : Except Err (Auth × List Addr) :=
@@ -441,7 +547,7 @@ def validateDeleteScope (s : State) (id : ScopeId) (signers : List Addr) : Excep
   else match findScope s id with
     | none => .error .notfound
     | some e =>
-      match validateAllRequiredSigned { grants := s.grants } signers .delete e.owners [] with
+      match deleteParties s e signers with
       | .error er => .error er
       | .ok (a1, used1) =>
         match denomOwner s.ledger id with
@@ -532,7 +638,7 @@ def setAccess (s : State) (marker addr : Addr) (perms : List Access) : Except Er
     if m.addr = marker then { m with access := m.access.filter (·.1 ≠ addr) ++ perms.map fun p => (addr, p) } else m }
 
 inductive Op where
-  | write (id : ScopeId) (owners : List Addr) (vo : Addr) (signers : List Addr)
+  | write (id : ScopeId) (owners : List Party) (rollup : Bool) (vo : Addr) (signers : List Addr)
   | delete (id : ScopeId) (signers : List Addr)
   | updvo (ids : List ScopeId) (vo : Addr) (signers : List Addr)
   | migrate (existing proposed : Addr) (signers : List Addr)
@@ -544,7 +650,7 @@ inductive Op where
   deriving Repr
 
 def exec (s : State) : Op → Except Err State
-  | .write id owners vo signers => writeScope s id owners vo signers
+  | .write id owners rollup vo signers => writeScope s id owners rollup vo signers
   | .delete id signers => deleteScope s id signers
   | .updvo ids vo signers => updateValueOwners s ids vo signers
   | .migrate ex pr signers => migrateValueOwner s ex pr signers
